@@ -60,6 +60,7 @@ type Event struct {
 	Up     string // marker attached by a context operator upstream of the operator under test
 	GID    int64
 	T      int64 // monotonic ns at entry
+	TE     int64 // monotonic ns at exit
 	Late   bool  // delivered after a terminal (grammar violation)
 	orig   any
 }
@@ -173,7 +174,7 @@ func (r *Rec) exit(e *Event) {
 		defer func() {
 			// OnEvent may panic on purpose (fault injection): keep the books straight.
 			if x := recover(); x != nil {
-				e.End = Tick()
+				e.End, e.TE = Tick(), Mono()
 				r.mu.Lock()
 				r.events = append(r.events, *e)
 				r.mu.Unlock()
@@ -183,7 +184,7 @@ func (r *Rec) exit(e *Event) {
 		}()
 		r.OnEvent(e)
 	}
-	e.End = Tick()
+	e.End, e.TE = Tick(), Mono()
 	r.mu.Lock()
 	r.events = append(r.events, *e)
 	r.mu.Unlock()
